@@ -55,12 +55,15 @@ class RefCoapAccessory:
         self.decrypt_errors = []
         self.sessions_established = 0
         self.pairings_status = 0
+        self.setup_handler = None     # callable(request TLV items) -> raw reply bytes for POST /1 (pair-setup)
 
     def handle(self, msg):
         payload = bytes(msg.payload)
         path = tuple(msg.opt.uri_path)
         if path == ("2",):
             return self.pair_verify(payload)
+        if path == ("1",) and self.setup_handler is not None:
+            return Message(code=Code.CHANGED, payload=self.setup_handler(tlv_dec(payload)))
         if path in (("0",), ("1",)):
             return Message(code=Code.NOT_FOUND)
         s = self.sess
